@@ -14,13 +14,14 @@ def _sizes(tier, k):
 
 def _quick_structs(st):
     return st["name"] in ("opt-literal", "literal-cards", "ref-vs-iri", "ref-and-iri-same-node", "two-refs", "bnode-and-typed-iri", "multi-typed", "incoming-cards",
-                          "three-rows-mixed", "typed-bnode-values", "sm-single-constraint")
+                          "three-rows-mixed", "typed-bnode-values", "sm-single-constraint", "refs-different-cards")
 
 
 def main(tier, t0):
     tasks = []
     for opt in (QUICK_OPTS if tier == "quick" else THOROUGH_OPTS):
         tasks += stage_check.tasks_for("C13", tier, scenario="pair:" + opt, sizes=_sizes, structure_filter=_quick_structs if tier == "quick" else None)
+    tasks += [("harness.api", "run_history", "api/" + n, dict(name=n)) for n in ("file-vs-string", "file-vs-string-10000-lines")]   # 'output file vs string' (concrete, as C18)
     return stage_check.main("C13", tier, t0, tasks=tasks,
                             explanation="one symbolic input evaluated under a pair of configurations differing in one option (remaining switches symbolic): presentation options leave the parsed "
                                         "structure identical; decimals=n: every printed ratio is within 0.5*10^-n of the exact ratio (table query over the counters); all-compliant / allow_opt / "
